@@ -56,7 +56,9 @@ Record etables := {
   x_ftypes : list ftype;
   x_pnum : list (text * N); x_pdt : list (text * N);
   x_ploc : list (ftype * option text * text * (text * text * text));
-  x_seencmp : list (N * list N);                       (* date comparison k on last_seen_on: the instants satisfying it *)
+  x_seencmp : list (N * list N);                       (* date comparison k on last_seen_on: the instants satisfying it
+                                                          in the environment ensureQueryBasedGroups evaluates in *)
+  x_seencmp_m : list (N * list N);                     (* ... and in the contact-merged environment of modifiers.Apply *)
   x_groups : list (option query)                        (* group g is the g-th entry; None = static *)
 }.
 
@@ -68,7 +70,7 @@ Fixpoint lookupL (tbl : list (N * list N)) (k : N) : list N :=
 
 Definition group_query (x : etables) (g : N) : option query := nth (N.to_nat g) (x_groups x) None.
 
-Definition mk_env (x : etables) : menv :=
+Definition mk_env_with (x : etables) (seencmp : list (N * list N)) : menv :=
   {| max_field_chars := x_max x;
      urn_norm1 := lookupN (x_norm x);
      urn_valid := fun u => memN u (x_valid x);
@@ -87,9 +89,13 @@ Definition mk_env (x : etables) : menv :=
      uses_query := fun g => match group_query x g with Some _ => true | None => false end;
      matches := fun g c => match group_query x g with
                            | Some q => qeval (lookupN (x_scheme x)) (x_ftypes x)
-                                             (fun k t => memN t (lookupL (x_seencmp x) k)) q c
+                                             (fun k t => memN t (lookupL seencmp k)) q c
                            | None => false
                            end |}.
+
+(* the session environment (also what a direct modifiers.Apply is given by the harness) and the contact-merged one *)
+Definition mk_env (x : etables) : menv := mk_env_with x (x_seencmp x).
+Definition mk_env_m (x : etables) : menv := mk_env_with x (x_seencmp_m x).
 
 Definition tables_in_fragment (x : etables) : bool :=
   forallb (fun oq => match oq with Some q => in_fragment (x_ftypes x) q | None => true end) (x_groups x).
@@ -163,7 +169,8 @@ Record scase := {
 
 Definition check_s (k : scase) : bool :=
   let E := mk_env (s_tables k) in
-  let '(c1, evs1) := run_sprint E (s_kind k) (s_acts k) (s_contact k) in
+  (* the engine as the code stands: re-evaluation at start/resume in the session environment, modifiers in the merged one *)
+  let '(c1, evs1) := run_sprint2 E (mk_env_m (s_tables k)) (s_kind k) (s_acts k) (s_contact k) in
   contact_obs_ptr_eqb c1 (s_o_contact k) && events_eqb evs1 (s_o_events k) && tables_in_fragment (s_tables k)
   && wf_contact_b E (s_contact k) && forallb (fun fm => mod_wf_b E (snd fm)) (s_acts k)
   && match s_kind k with KResume (Some c') _ => wf_contact_b E c' && chan_ok_b E c' | _ => true end
